@@ -94,7 +94,11 @@ class Family:
             self.classify(ctx, sc, py)
             lean = outs.get(sc["id"], {"error": "no output"})
             if "error" in lean:
-                raise RuntimeError("driver: " + lean["error"])
+                # the model gave no answer on this scenario: the correspondence cannot be checked on it
+                ctx.violations.append(dict(level="mach", what=f"python vs model ({self.what})",
+                                           detail="the model's driver gave no answer (" + lean["error"] + ")",
+                                           scenario={k: x for k, x in sc.items() if k != "id"}, family=self.name, label=label))
+                continue
             self.note(ctx, sc, lean["out"][self.out_key])
             hits = set()
             i, detail = self.first_diff(py, lean["out"][self.out_key], sc, hits)
